@@ -607,8 +607,8 @@ class C10(Check):
         "a fresh TestSuite / not yet loaded table is modelled as a synchronized table",
         "FieldMapper is not modelled in Lean: the model's process receives the produced rows from the "
         "harness's naive re-statement of FieldMapper.map/cleanup (checked against the real code by the oracle)",
-        "commit on a compressed relation with only appended rows raises NotImplementedError (documented in "
-        "tsdb.write); modelled, and accepted by the oracle only in that situation and only if nothing changed",
+        "after commit the compressed/plain form follows the code's rule (compressed stays compressed unless "
+        "empty); the oracle only requires exactly one physical form, the form itself is compared with the model",
     ]
     trusted_base = ["hand-written model lean/Verif/C10/Model.lean, tied to delphin.itsdb/tsdb by the correspondence run",
                     "Verif.Common.Py slice model (sliceIndices/rangeList/setSliceSimple)"]
@@ -891,34 +891,9 @@ class C10(Check):
             k = st["k"]
             cur, stored = info["cur"], info["stored"]
             nfail = len(fails)
-            # --- exceptions
-            if k == "process" and o["e"] == "NotImplementedError":
-                # documented limitation of tsdb.write(append=True): a flush cannot append to a compressed
-                # relation; only acceptable if an unaffected compressed relation held appended rows
-                culprit = [n for n in NAMES if n not in AFFECTED and prev_gz.get(n)
-                           and len(prev_cur[n]) > len(prev_stored[n])
-                           and prev_cur[n][:len(prev_stored[n])] == prev_stored[n]]
-                if not culprit:
-                    fail(si, "process raised NotImplementedError without a compressed relation holding appended rows", o["e"])
-                return fails[:3]          # what an aborted process leaves behind is not specified
-            if k == "commit" and o["e"] == "NotImplementedError":
-                # documented limitation: only for a compressed relation whose pending change is an append
-                culprit = [n for n in NAMES if prev_gz.get(n) and len(cur[n]) > len(prev_stored[n])
-                           and cur[n][:len(prev_stored[n])] == prev_stored[n]]
-                if not culprit:
-                    fail(si, "commit raised NotImplementedError without a compressed relation holding appended rows", o["e"])
-                # tables before the culprit are committed, the others untouched
-                stored = {}
-                for n in NAMES:
-                    if n in o["T"] and keys(o["T"][n]["f"]) == cur[n]:
-                        stored[n] = cur[n]
-                    else:
-                        stored[n] = prev_stored[n]
-                info["stored"] = stored
-                # later steps of the plain-list run must continue from what really is stored
-                self._patch_sim(case, si, stored)
-                sim = self.sim(case)
-            elif o["e"] != info["err"]:
+            # --- exceptions: exactly what the plain list raises; commit/reload/process never raise
+            # (since 7d1c791 a compressed relation is rewritten, NotImplementedError is a violation)
+            if o["e"] != info["err"]:
                 fail(si, "operation raised a different exception than the plain list / documented behaviour",
                      (k, "expected", info["err"], "got", o["e"]))
             # --- every observed table equals the plain list
@@ -987,37 +962,7 @@ class C10(Check):
                 prev_gz[n] = t["gz"]
         return fails[:3]
 
-    def _patch_sim(self, case, si, stored):
-        """after a partially failed commit re-run the plain lists from the really stored state"""
-        sim = self.sim(case)
-        spec = Spec(case)
-        spec.cur = {n: list(sim[si]["cur"][n]) for n in NAMES}
-        spec.stored = {n: list(stored[n]) for n in NAMES}
-        for j in range(si + 1, len(case["steps"])):
-            st = case["steps"][j]
-            k = st["k"]
-            info = sim[j]
-            if k == "commit":
-                for n in NAMES:
-                    spec.stored[n] = list(spec.cur[n])
-            elif k in ("reload", "reopen"):
-                for n in NAMES:
-                    spec.cur[n] = list(spec.stored[n])
-            elif k == "process":
-                prod, calls = spec.produced(st)
-                info["produced"], info["calls"] = prod, calls
-                for n in AFFECTED:
-                    spec.cur[n] = []
-                for n, row in prod:
-                    spec.cur[n].append(norm_row(n, row))
-                for n in NAMES:
-                    spec.stored[n] = list(spec.cur[n])
-            else:
-                info["err"] = spec.table_step(st)
-            info["cur"] = {n: list(spec.cur[n]) for n in NAMES}
-            info["stored"] = {n: list(spec.stored[n]) for n in NAMES}
-
-    # ---- known findings: none open (F03, F04, F05, F31 are fixed; their witnesses are in corpus/C10)
+    # ---- known findings: none open (F03 F04 F05 F31 F32 F34 F52 are fixed; witnesses in corpus/C10)
     def classify(self, case, failure):
         return None
 
